@@ -43,6 +43,22 @@ const (
 	// 12.1: a block whose statement list produces no value completes with the
 	// value undefined instead of empty.
 	AltEmptyBlockUndefined
+	// 12.14: when the catch block ran, the finally block is evaluated with the
+	// catch clause's environment still on the scope chain.
+	AltFinallyInCatchEnv
+	// 13 / 10.5 step 5.b: a FunctionDeclaration is instantiated like a named
+	// function expression: its own name is an immutable binding in a fresh
+	// environment between the function and the variable environment.
+	AltFunDeclSelfBinding
+	// 10.6 step 11.c: every index below the number of formals is mapped, also
+	// the earlier occurrences of a duplicated parameter name.
+	AltArgsMapDuplicates
+	// 12.6.4 (for (var x = init in o)): the initialiser is evaluated whenever
+	// the loop target is evaluated (each iteration), not once before the loop.
+	AltForInInitPerIteration
+	// 15.3.4.3-5: call / apply / bind replace an undefined thisArg by the global
+	// object whatever the callee is (for built-in callees too).
+	AltCallUndefinedThisGlobal
 	nAltFlags = iota
 )
 
@@ -59,6 +75,11 @@ var AltNames = []string{
 	"bound-function-own-prototype-hasinstance",
 	"arguments-defineproperty-keeps-parameter-map",
 	"valueless-block-completes-with-undefined",
+	"finally-runs-in-catch-environment",
+	"function-declaration-self-binding",
+	"arguments-maps-duplicate-parameters",
+	"forin-var-initialiser-per-iteration",
+	"call-apply-bind-undefined-this-becomes-global",
 }
 
 // NAlt is the number of alternative-model switches.
@@ -299,7 +320,17 @@ func (in *Interp) bindDeclarations(c *Ctx, vars []string, funcs []*FuncLit, f *O
 	}
 	// step 5
 	for _, fd := range funcs {
-		fo := in.makeFunction(fd, c.Var)
+		var scope Env = c.Var
+		var selfEnv *DeclEnv
+		if in.Flags&AltFunDeclSelfBinding != 0 {
+			selfEnv = NewDeclEnv(c.Lex)
+			selfEnv.CreateImmutableBinding(fd.Name)
+			scope = selfEnv
+		}
+		fo := in.makeFunction(fd, scope)
+		if selfEnv != nil {
+			selfEnv.InitializeImmutableBinding(fd.Name, fo)
+		}
 		if !env.HasBinding(in, fd.Name) {
 			env.CreateMutableBinding(in, fd.Name, configurable)
 		} else if evalCode && in.Flags&AltEvalNotDeletable != 0 {
@@ -340,7 +371,7 @@ func (in *Interp) createArguments(f *Obj, names []string, args []Value, env *Dec
 		o.setSlot(k, &Prop{Value: args[i], W: true, E: true, C: true})
 		if i < len(names) {
 			name := names[i]
-			if !mapped[name] {
+			if !mapped[name] || in.Flags&AltArgsMapDuplicates != 0 {
 				mapped[name] = true
 				m[k] = name
 			}
